@@ -35,7 +35,7 @@ type caseSpec struct {
 	TickUs            int    // OnTick interval; TickBusyUs: time spent inside OnTick
 	TickBusyUs        int
 	DelayUs           int    // between activity start and the shutdown request
-	UDPTarget         bool   // client, OnTraffic source: the Shutdown answer comes from the OnTraffic of a connected UDP socket
+	UDPTarget         bool   // OnTraffic source: the Shutdown answer comes from the OnTraffic of a connected UDP socket
 	WerrBy            string // OnClose+writeerr source: the call that fails - write, writev, flush
 	WakeCallback      bool   // Wake source: the request carries a callback (that returns nil)
 	Backlog           int    // async requests queued behind a busy loop right before the request (Wake/OnTick sources)
@@ -323,19 +323,34 @@ func run(cs caseSpec) (fails, stalls []string, infra string, nt bool) {
 	// a connected UDP socket of the client: its OnTraffic may be the one that answers Shutdown
 	var udpPeer *net.UDPConn
 	var udpState *cstate
-	if cs.UDPTarget && cs.Cfg.Client && infra == "" {
+	if cs.UDPTarget && infra == "" {
 		if up, err := net.ListenUDP("udp4", &net.UDPAddr{IP: net.ParseIP(fx.Host("udp4"))}); err == nil {
 			c := &cstate{s: s, role: "idle", closedCh: make(chan struct{})}
 			s.mu.Lock()
 			c.id = len(s.conns)
 			s.conns = append(s.conns, c)
 			s.mu.Unlock()
-			if _, err := e.Client().DialContext("udp4", up.LocalAddr().String(), fx.ConnHooks(c)); err == nil {
+			var err error
+			if cs.Cfg.Client {
+				_, err = e.Client().DialContext("udp4", up.LocalAddr().String(), fx.ConnHooks(c))
+			} else {
+				// a server engine gets its connected UDP socket through Engine.Register with a UDP address
+				var ch <-chan gnet.RegisteredResult
+				if ch, err = e.Eng.Register(gnet.NewNetAddrContext(gnet.NewContext(context.Background(), fx.ConnHooks(c)), up.LocalAddr())); err == nil {
+					select {
+					case r := <-ch:
+						err = r.Err
+					case <-time.After(8 * time.Second):
+						err = fmt.Errorf("no result within 8s")
+					}
+				}
+			}
+			if err == nil {
 				udpPeer, udpState = up, c
 				defer up.Close()
 			} else {
 				up.Close()
-				addF("VERIF-KEY:stop-connect Dial udp on a running client: %v", err)
+				addF("VERIF-KEY:stop-connect a connected UDP socket on a running engine: %v", err)
 			}
 		}
 	}
@@ -659,10 +674,13 @@ func drawCase(t *rapid.T) caseSpec {
 	if cs.Source == "Wake" {
 		cs.WakeCallback = rapid.Bool().Draw(t, "wakeCallback")
 	}
-	if cs.Source == "OnTraffic" && cs.Cfg.Client {
-		cs.UDPTarget = rapid.Bool().Draw(t, "udpTarget")
+	if cs.Source == "OnTraffic" {
+		cs.UDPTarget = rapid.IntRange(0, 2).Draw(t, "udpTarget") == 0
 		if cs.UDPTarget {
 			cs.Streams, cs.Asyncers = 0, 0 // no other OnTraffic may answer first
+			if cs.Cfg.LB == gnet.RoundRobin {
+				cs.Cfg.LB = gnet.LeastConnections // Engine.Register is not for Round-Robin engines
+			}
 		}
 	}
 	if cs.Source == "OnClose+writeerr" {
@@ -714,6 +732,9 @@ func TestC06Shutdown(t *testing.T) {
 			st.Label("shutdown_with_unread_unsent_or_connecting")
 		}
 		st.Label("source_" + cs.Source)
+		if cs.UDPTarget {
+			st.Label("answer_from_a_connected_udp_socket")
+		}
 		if hygiene > 0 {
 			st.LabelN("accepted_sockets_closed_by_harness_hygiene", hygiene)
 			hygiene = 0
